@@ -1,7 +1,115 @@
-(* C02 (placeholder while the proofs are being moved in) *)
+(* C02 - count cube equals the brute-force contingency table.
+
+   `count_cube N dims shape cell` (Cube/Count.v) is the (value, missing) pair the code computes for a cell:
+   zeros with the grand total N in the corner (ffunc_count.get_initial_regions), one write `len(rowids)` per
+   coordinate presented by the walk (Cube/Walk.v = ccube._walk, -1 addressing the margin slot the way NumPy
+   does), marginal differencing over every axis in turn with the sum taken over ALL indices of the axis
+   (Region.adiff_all = ccube._compute_common_cells_from_marginal_diffs), margins cut, zero -> missing.
+   The theorems hold for every number of dimensions, all data, all commons (frequent, rare, absent), all
+   extents that cover the data (exact, padded, at any boundary).
+   Hypotheses: N >= 0 is the row count; every dimension is a well-formed one-axis index over N rows (dim_wf,
+   what iindex.validate checks; dimensions with extra axes are reduced to this by C13, and the tie slices with
+   the real `sliced`); `covers`: every listed value and the common lie in [0, extent) - a smaller extent is an
+   IndexError or NumPy aliasing with the margin slot and outside the property. *)
 From Coq Require Import ZArith List Bool.
-From Catii Require Import Cube.Dim Cube.Walk Cube.Region Cube.Count Cube.Check.
+From Catii Require Import Base.Sorted Cube.Dim Cube.Walk Cube.WalkProofs Cube.Region Cube.Count Cube.CountTable
+     Cube.CountProofs Cube.Check.
 Import ListNotations.
 Open Scope Z_scope.
-Example c02_smoke : count_cube 3 (mkdims [([(1, [0; 2])], 0); ([(2, [2])], 0)]) [2; 3] [0; 0] = (1, false).
+
+(* every cell inside the shape - visited by the walk or reconstructed by differencing - holds exactly the number
+   of rows of that cell, and is missing exactly when that number is zero *)
+Theorem C02_count : forall (N : Z) (dims : list dim) (shape : list Z),
+  0 <= N -> Forall (dim_wf N) dims -> covers shape dims ->
+  forall cell, in_shape shape cell ->
+    count_cube N dims shape cell =
+      (len_rows (cell_rows N dims cell), Z.eqb (len_rows (cell_rows N dims cell)) 0).
+Proof. exact count_cube_spec. Qed.
+Print Assumptions C02_count.
+
+(* ... where the rows of a cell are, each once, the rows r < N whose category on EVERY dimension is the
+   cell's coordinate (dim_dense = the dense column the index stands for) *)
+Theorem C02_cell_rows : forall (N : Z) (dims : list dim) (cell : list Z), length cell = length dims ->
+  sincr (cell_rows N dims cell) /\
+  forall r, In r (cell_rows N dims cell) <->
+            0 <= r < N /\ forall d, (d < length dims)%nat -> dim_dense (nth d dims dim0) r = nth d cell 0.
+Proof. exact cell_rows_spec. Qed.
+Print Assumptions C02_cell_rows.
+
+Theorem C02_missing_iff_no_rows : forall (N : Z) (dims : list dim) (shape : list Z),
+  0 <= N -> Forall (dim_wf N) dims -> covers shape dims ->
+  forall cell, in_shape shape cell -> (snd (count_cube N dims shape cell) = true <-> cell_rows N dims cell = []).
+Proof. exact count_missing_iff. Qed.
+Print Assumptions C02_missing_iff_no_rows.
+
+(* the three report formats (NaN / (null, False) pair / plain null) describe the same missing set and the same
+   values elsewhere *)
+Theorem C02_formats_agree : forall (null : Z) (vm : Z * bool),
+  (report_nan vm = None <-> snd vm = true) /\
+  (snd (report_pair null vm) = false <-> snd vm = true) /\
+  (snd vm = true -> fst (report_pair null vm) = null /\ report_plain null vm = null) /\
+  (snd vm = false -> report_nan vm = Some (fst vm) /\ fst (report_pair null vm) = fst vm /\ report_plain null vm = fst vm).
+Proof. exact formats_agree. Qed.
+Print Assumptions C02_formats_agree.
+
+Theorem C02_reports : forall (N : Z) (dims : list dim) (shape : list Z) (null : Z),
+  0 <= N -> Forall (dim_wf N) dims -> covers shape dims ->
+  forall cell, in_shape shape cell ->
+    let n := len_rows (cell_rows N dims cell) in
+    let vm := count_cube N dims shape cell in
+    report_nan vm = (if Z.eqb n 0 then None else Some n) /\
+    report_pair null vm = (if Z.eqb n 0 then (null, false) else (n, true)) /\
+    report_plain null vm = (if Z.eqb n 0 then null else n).
+Proof. exact count_reports. Qed.
+Print Assumptions C02_reports.
+
+(* shape inference (ccubes.py:56-59): the inferred extent is 1 + the largest of the listed values and the
+   common, and the inferred shape covers the cube whenever the category values are non-negative *)
+Theorem C02_infer : forall (dims : list dim),
+  Forall2 (fun e d => (In (e - 1) (dkeys d) \/ e - 1 = dcommon d) /\ (forall v, In v (dkeys d) -> v < e) /\ dcommon d < e)
+          (infer_shape dims) dims.
+Proof. exact infer_shape_spec. Qed.
+Print Assumptions C02_infer.
+
+Theorem C02_infer_covers : forall (dims : list dim),
+  Forall (fun d => (forall v, In v (dkeys d) -> 0 <= v) /\ 0 <= dcommon d) dims -> covers (infer_shape dims) dims.
+Proof. exact infer_shape_covers. Qed.
+Print Assumptions C02_infer_covers.
+
+(* what the correspondence check evaluates (a table staged through every differencing step, or the right-hand
+   side of C02_count for boxes beyond TABLE_LIMIT cells) IS the value of the model cube *)
+Theorem C02_checker_evaluates_model : forall (N : Z) (dims : list dim) (shape cell : list Z),
+  count_lookup_ok N dims shape = true -> in_shape shape cell ->
+  count_lookup N dims shape cell = fst (count_cube N dims shape cell).
+Proof. exact count_lookup_spec. Qed.
+Print Assumptions C02_checker_evaluates_model.
+
+(* non-vacuity: three dimensions over 6 rows (inclusion-exclusion through the middle-dimension branch), commons
+   0 (frequent), 3 (absent from the data) and 2 (rare), padded shape (3, 4, 4): the hypotheses hold
+   (boolean twins + soundness lemmas); the all-common cell (0, 3, 2) is empty (missing), the cell (0, 0, 2) with
+   two common coordinates holds row 5, the visited cell (1, 2, 1) holds row 2 *)
+Example C02_nonvacuous :
+  let dims := mkdims [([(1, [0; 2]); (2, [4])], 0); ([(0, [0; 1; 3; 5]); (2, [2; 4])], 3); ([(1, [1; 2]); (0, [3])], 2)] in
+  0 <= 6 /\ Forall (dim_wf 6) dims /\ covers [3; 4; 4] dims /\ in_shape [3; 4; 4] [0; 0; 2] /\
+  count_cube 6 dims [3; 4; 4] [0; 0; 2] = (1, false) /\ cell_rows 6 dims [0; 0; 2] = [5] /\
+  count_cube 6 dims [3; 4; 4] [0; 3; 2] = (0, true) /\
+  count_cube 6 dims [3; 4; 4] [1; 2; 1] = (1, false) /\
+  count_cube 6 dims [3; 4; 4] [1; 0; 2] = (1, false) /\ cell_rows 6 dims [1; 0; 2] = [0] /\
+  infer_shape dims = [3; 4; 3].
+Proof.
+  cbv zeta.
+  split; [discriminate|].
+  split; [apply forall_dim_wf_b_sound; vm_compute; reflexivity|].
+  split; [apply covers_b_sound; vm_compute; reflexivity|].
+  split; [apply in_shape_b_iff; vm_compute; reflexivity|].
+  vm_compute. repeat split; reflexivity.
+Qed.
+
+(* the staged evaluation agrees with the functional model on every cell of this cube (also checked in general
+   by C02_checker_evaluates_model) *)
+Example C02_table_agrees :
+  let dims := mkdims [([(1, [0; 2]); (2, [4])], 0); ([(0, [0; 1; 3; 5]); (2, [2; 4])], 3); ([(1, [1; 2]); (0, [3])], 2)] in
+  let R := count_lookup 6 dims [3; 4; 4] in
+  forallb (fun c => Z.eqb (R c) (fst (count_cube 6 dims [3; 4; 4] c)))
+          (flat_map (fun a => flat_map (fun b => map (fun c => [a; b; c]) [0; 1; 2; 3]) [0; 1; 2; 3]) [0; 1; 2]) = true.
 Proof. vm_compute. reflexivity. Qed.
